@@ -118,7 +118,7 @@ def _segseg(draw):
     if fam == "general":
         pts = [draw(_pt) for _ in range(4)]
     elif fam == "scaled":
-        sc = draw(st.sampled_from([1e-3, 1e-2, 1e2, 1e3, 1e5, 1e6]))
+        sc = draw(st.sampled_from([2.0 ** -20, 2.0 ** -16, 1e-5, 1e-3, 1e-2, 1e2, 1e3, 1e5, 1e6]))
         off = draw(st.sampled_from([(0.0, 0.0), (5e6, 3e6), (-7e6, 6.5e6)]))
         raw = [draw(st.one_of(_hpt, _pt)) for _ in range(4)]
         pts = [(off[0] + sc * p[0], off[1] + sc * p[1]) for p in raw]
@@ -161,7 +161,7 @@ def _project(draw):
     if fam == "general":
         pts = [draw(_pt) for _ in range(3)]
     elif fam == "scaled":
-        sc = draw(st.sampled_from([1e-3, 1e-2, 1e2, 1e3, 1e5, 1e6]))
+        sc = draw(st.sampled_from([2.0 ** -20, 2.0 ** -16, 1e-5, 1e-3, 1e-2, 1e2, 1e3, 1e5, 1e6]))
         off = draw(st.sampled_from([(0.0, 0.0), (5e6, 3e6), (-7e6, 6.5e6)]))
         pts = [(off[0] + sc * p[0], off[1] + sc * p[1]) for p in (draw(_pt), draw(_pt), draw(_pt))]
     elif fam == "online":
